@@ -111,3 +111,19 @@ Example simplify_not_ex :
   eval Wgood [] (EUn UNot (EBin BComma (ECall (EId 1000 false false) [] 0 false) (ENum NaN)) false)
   = Some ([99], Val (VBool true)).
 Proof. repeat split; vm_compute; reflexivity. Qed.
+
+From V Require Import C03.TreeProofs6.
+(* simplify_boolean_sound on a real rewrite in an effectful world: (g() ? 1 : 0) is simplified to g() || false
+   and ((x >>> 0) === 0) to !(x >>> 0) *)
+Definition ex_sb : expr :=
+  EBin BLogAnd (EIf (ECall (EId 1000 false false) [] 0 false) (ENum (Fin false 1 0)) (EBool false))
+               (EBin BStrictEq (EBin BUShr (EId 1 false false) (ENum (Fin false 0 0))) (ENum (Fin false 0 0))).
+Example simplify_boolean_sound_ex :
+  simplify_boolean (w_unbound Wgood) ex_sb
+  = EBin BLogAnd (EBin BLogOr (ECall (EId 1000 false false) [] 0 false) (EBool false))
+                 (EUn UNot (EBin BUShr (EId 1 false false) (ENum (Fin false 0 0))) false) /\
+  eval Wgood [] ex_sb = Some ([99], Val (VBool false)) /\ flags_ok Wgood ex_sb.
+Proof.
+  split; [vm_compute; reflexivity|]. split; [vm_compute; reflexivity|].
+  cbn. repeat split; intros; try discriminate; try exact I; eauto.
+Qed.
